@@ -150,7 +150,8 @@ pub fn spawn_watchdog(r: SharedReport, out: String, limit_s: u64) {
             std::thread::sleep(std::time::Duration::from_millis(250));
             let mut g = r.lock().unwrap();
             let hung = match &g.current_case {
-                Some((t0, _, _, _)) => t0.elapsed().as_secs() >= limit_s,
+                // cases known to be long (big explicit-state searches) declare it in their key
+                Some((t0, _, _, key)) => t0.elapsed().as_secs() >= if key.ends_with("hang-long") { limit_s * 30 } else { limit_s },
                 None => false,
             };
             if hung {
